@@ -76,7 +76,7 @@ SeqSet(s) == {s[i] : i \in DOMAIN s}
 MiscInit == [probe |-> [e \in EP |-> -1], thr |-> <<>>, cbs |-> <<>>, ackDue |-> [e \in EP |-> -1],
              incn |-> <<>>, fwdMax |-> [e \in EP |-> -1],
              nack |-> [line |-> 0, to |-> -1, set |-> {}, hb |-> FALSE], teardown |-> FALSE, calls |-> <<>>, inj |-> <<>>, dead |-> [e \in EP |-> FALSE], abortRx |-> [e \in EP |-> FALSE], fuzzed |-> FALSE, abortSeen |-> [e \in EP |-> FALSE], shutAt |-> <<>>, shutRet |-> <<>>, closedInc |-> <<>>, wdl |-> <<>>, rdl |-> <<>>, reqs |-> <<>>, gen |-> <<>>, performed |-> {}, genAtRx |-> <<>>, rsGen |-> <<>>,
-             pendReads |-> <<>>, hbCalls |-> <<>>, hbSeen |-> {}, txn |-> [e \in EP |-> 0], wfail |-> {}, rdBase |-> <<>>, rdOut |-> <<>>, bwOwed |-> {},
+             pendReads |-> <<>>, hbCalls |-> <<>>, hbSeen |-> {}, txn |-> [e \in EP |-> 0], wfail |-> {}, rdBase |-> <<>>, rdOut |-> <<>>, bwOwed |-> {}, forged |-> FALSE,
              t3h |-> [e \in EP |-> [t |-> -1, iv |-> 0, cum |-> -1, n |-> -1]]]
 
 InitVars ==
@@ -274,7 +274,7 @@ TrTx ==
 TrForge ==
   /\ IsEv("forge")
   /\ pkt' = (E.pid :> [ep |-> E.ep, ck |-> E.ck, forged |-> TRUE, genuine |-> E.genuine, t |-> E.t, kinds |-> E.kinds, chunks |-> <<>>, class |-> E.class, malformed |-> E.pwf # <<>>]) @@ pkt
-  /\ misc' = [misc EXCEPT !.fuzzed = @ \/ E.class = "mutated"]
+  /\ misc' = [misc EXCEPT !.fuzzed = @ \/ E.class = "mutated", !.forged = @ \/ ~E.genuine]
   /\ l' = l + 1
   /\ UNCHANGED <<scen, cfg, msg, order, reads, ch, hi, rcvd, skipTo, ackCum, ackGap, arw, outst, lastSack, sackEv, sn, step, newData, rs, acc, viol>>
 
@@ -790,6 +790,15 @@ TrSame ==
 (***************************************************************************)
 (* Scenario end: print the violations                                      *)
 (***************************************************************************)
+\* After a packet that did not come from the peer (adversary classes, mutated copies) was handed to an endpoint, the
+\* monitors that compare the implementation with the specification's own model of the GENUINE exchange (what the
+\* receiver must hold, what the sender has outstanding, owed acknowledgements, RTT samples, negotiated state) have lost
+\* their premise; such scenarios are judged by the C03 / delivery monitors. The others are not reported for them.
+ForgedNoise == {"C05_CompleteNow", "C05_HeldReceived", "C05_Monotone", "C05_CumSound", "C05_GapSound", "C05_DupSound", "C05_Complete",
+                "C11_HeldBytes", "C11_Arwnd", "C11_ArwndNow", "C11_FullWindowWhenRead", "C07_Cursor", "C15_StreamExact", "C15_AssocExact",
+                "C15_Callback", "C19_KarnSample", "C19_AckDelay", "C04_Agreement", "C02_BufferedZero", "C02_AssocBufferedZero", "C10_Window"}
+Keep(S) == IF misc.forged THEN {v \in S : v.mon \notin ForgedNoise} ELSE S
+
 EndViol(e) ==
   (IF ~e.clean THEN {V("C09_NoLeak", <<e.leaks, IF "stacks" \in DOMAIN e THEN e.stacks[1] ELSE "">>)} ELSE {})
   \cup {V("C09_CallsReturn", <<misc.calls[c].ep, misc.calls[c].op>>) : c \in DOMAIN misc.calls}
@@ -798,7 +807,7 @@ EndViol(e) ==
 
 TrEnd ==
   /\ IsEv("end")
-  /\ LET vs == viol \cup EndViol(E) IN
+  /\ LET vs == Keep(viol \cup EndViol(E)) IN
        /\ PrintT(<<"VFSCEN", scen, Cardinality(vs), l>>)
        /\ \A v \in vs : PrintT(<<"VFVIOL", ToJson(v)>>)
        /\ viol' = {}
@@ -810,7 +819,7 @@ TrEnd ==
 \* is deadlocked (C09: nothing can be torn down any more; C20: no deadlocks). Terminates the scenario.
 TrDeadlock ==
   /\ IsEv("deadlock")
-  /\ LET vs == viol \cup {V("C09_Deadlock", <<E.name, E.stacks>>)} IN
+  /\ LET vs == Keep(viol \cup {V("C09_Deadlock", <<E.name, E.stacks>>)}) IN
        /\ PrintT(<<"VFSCEN", scen, Cardinality(vs), l>>)
        /\ \A v \in vs : PrintT(<<"VFVIOL", ToJson(v)>>)
        /\ viol' = {}
